@@ -432,6 +432,8 @@ pub fn generate(tier: &str, rng: &mut Rng) -> (Vec<String>, bool) {
             push1(&mut out, f, &xs, w, mp, i);
         }
     }
+    // the same requests as small fluctuations around a large level (1024 + v/128)
+    crate::cases::add_leveled(&mut out, 11, 1024, &["xs", "ys"]);
     // the same requests at scales 2^-12 .. 2^-15: variances a few orders of magnitude above EPS
     crate::cases::add_scaled(&mut out, 9, &[12, 13, 14, 15], &["xs", "ys"]);
     (out, true)
